@@ -547,6 +547,36 @@ func TestVerifC04Plugin(t *testing.T) {
 			}
 		}
 
+		// A handler has several steps after the one the harness can see (SetGangGroupInfo after tryInitByPodGroup,
+		// addBoundPod / setResourceSatisfied after setChild, dropping the gang and its group info after deletePod).
+		// Each informer delivers its events one after the other on one goroutine, so once a LATER event of the same
+		// informer is visible in the cache the earlier handler has returned: a sentinel object in a namespace of its own.
+		zns := ns + "z"
+		barrierPods := func() {
+			z := &corev1.Pod{ObjectMeta: metav1.ObjectMeta{Name: "pz", Namespace: zns, UID: types.UID("uid-" + zns),
+				Annotations: map[string]string{extension.AnnotationGangName: "gz", extension.AnnotationGangMinNum: "1"}}}
+			if _, err := su.cs.CoreV1().Pods(zns).Create(ctx, z, metav1.CreateOptions{}); err != nil {
+				panic(err)
+			}
+			await("sentinel pod", func() bool { return len(mgr.GetAllPodsFromGang(zns+"/gz")) == 1 })
+			if err := su.cs.CoreV1().Pods(zns).Delete(ctx, "pz", metav1.DeleteOptions{}); err != nil {
+				panic(err)
+			}
+			await("sentinel pod delete", func() bool { _, ok := mgr.GetGangSummary(zns + "/gz"); return !ok })
+		}
+		barrierPG := func() {
+			ti := int32(999)
+			z := &v1alpha1.PodGroup{ObjectMeta: metav1.ObjectMeta{Name: "gzz", Namespace: zns}, Spec: v1alpha1.PodGroupSpec{MinMember: 1, ScheduleTimeoutSeconds: &ti}}
+			if _, err := su.pgcs.SchedulingV1alpha1().PodGroups(zns).Create(ctx, z, metav1.CreateOptions{}); err != nil {
+				panic(err)
+			}
+			await("sentinel PodGroup", func() bool { _, ok := mgr.GetGangSummary(zns + "/gzz"); return ok })
+			if err := su.pgcs.SchedulingV1alpha1().PodGroups(zns).Delete(ctx, "gzz", metav1.DeleteOptions{}); err != nil {
+				panic(err)
+			}
+			await("sentinel PodGroup delete", func() bool { _, ok := mgr.GetGangSummary(zns + "/gzz"); return !ok })
+		}
+
 		// ---------- operations ----------
 		pgRev := 1000
 		pgExists := make([]bool, nG)
@@ -586,6 +616,7 @@ func TestVerifC04Plugin(t *testing.T) {
 					s, ok := mgr.GetGangSummary(gid(g))
 					return ok && s.WaitTime == time.Duration(pgRev)*time.Second
 				})
+				barrierPG()
 			})
 			pgExists[g] = true
 			declare(g, c)
@@ -600,6 +631,7 @@ func TestVerifC04Plugin(t *testing.T) {
 					panic(err)
 				}
 				await("pgdel", func() bool { _, ok := mgr.GetGangSummary(gid(g)); return !ok })
+				barrierPG()
 			})
 			pgExists[g] = false
 			h.Tag("op:pgdel")
@@ -650,6 +682,7 @@ func TestVerifC04Plugin(t *testing.T) {
 					panic(err)
 				}
 				await("pod event", func() bool { return hasRev(ps) })
+				barrierPods()
 			})
 			if ways[ps.g] != 0 && decl[ps.g] == nil {
 				declare(ps.g, cfgs[ps.g])
@@ -677,6 +710,7 @@ func TestVerifC04Plugin(t *testing.T) {
 					}
 					return true
 				})
+				barrierPods()
 			})
 			ps.added, ps.bound, ps.seenNode = false, false, false
 			h.Tag("op:poddel")
